@@ -428,6 +428,14 @@ impl WorldGen {
             return vec![ChildSpec { values: vec![], updates: self.updates(rng, kind) }];
         }
         let mut out: Vec<ChildSpec> = Vec::new();
+        let many = if rng.chance(1, 60) { 150 + rng.usize_below(400) } else { 0 };
+        for i in 0..many {
+            let mut values: Vec<String> = (0..nvar).map(|_| self.value(rng)).collect();
+            values[0] = format!("{}{}", values[0], i);
+            if !out.iter().any(|c: &ChildSpec| c.values == values) {
+                out.push(ChildSpec { values, updates: self.updates(rng, kind) });
+            }
+        }
         for _ in 0..rng.usize_below(5) {
             let values: Vec<String> = (0..nvar).map(|_| self.value(rng)).collect();
             if out.iter().any(|c| c.values == values) {
